@@ -170,6 +170,20 @@ M("C13", "dump-many-materialise", "iodata/api.py", r"    iter_data = iter\(iter_
 M("C13", "dump-many-reversed", F + "sdf.py", r"    for data in datas:\n        dump_one\(f, data\)", "    for data in reversed(list(datas)):\n        dump_one(f, data)", "C13-R6")
 M("C13", "pdb-blank-line-ends", F + "pdb.py", r"    try:\n        while True:\n            yield load_one\(lit\)\n    except \(StopIteration, LoadError\):\n        return", "    try:\n        while True:\n            line = next(lit)\n            if line.strip() == \"\":\n                return\n            lit.back(line)\n            yield load_one(lit)\n    except (StopIteration, LoadError):\n        return", "C13-R7")
 T("C13", "xyz-rename", F + "xyz.py", r"\batom_columns\b", "columns", count=0)
+# ----------------------------------------------------------------------------- round-2 agent twins: evaluated clauses
+M("C13", "xyz-load-many-drops-columns", F + "xyz.py", r"        yield load_one\(lit, atom_columns\)", "        yield load_one(lit)", "C13-R6")
+M("C13", "mol2-load-many-edits-frame", F + "mol2.py", r"            yield load_one\(lit\)\n    except LoadError:", "            frame = load_one(lit)\n            frame.pop(\"frame\", None)\n            yield frame\n    except LoadError:", "C13-R6")
+T("C13", "mol2-load-many-through-local", F + "mol2.py", r"            yield load_one\(lit\)\n    except LoadError:", "            frame = load_one(lit)\n            yield dict(frame)\n    except LoadError:")
+M("C07", "base-error-swaps-attributes", "iodata/utils.py", r"        self\.filename, self\.lineno = _interpret_file_lineno\(file, lineno\)", "        self.lineno, self.filename = _interpret_file_lineno(file, lineno)", "C07-R10")
+T("C07", "base-error-two-statements", "iodata/utils.py", r"        self\.filename, self\.lineno = _interpret_file_lineno\(file, lineno\)", "        where = _interpret_file_lineno(file, lineno)\n        self.filename = where[0]\n        self.lineno = where[1]")
+M("C07", "base-error-str-without-line", "iodata/utils.py", r"        return _format_file_message\(super\(\)\.__str__\(\), self\.filename, self\.lineno\)", "        return _format_file_message(super().__str__(), self.filename, None)", "C07-R10")
+M("C18", "cli-many-flag-store-false", "iodata/__main__.py", r'        "--many",\n        default=False,\n        action="store_true",', '        "--many",\n        default=True,\n        action="store_false",', "C18-R2")
+T("C18", "cli-format-options-from-a-table", "iodata/__main__.py", r'    parser\.add_argument\(\n        "-i", "--infmt", help="Select the input format, overrides automatic detection\."\n    \)\n', '    for flags_ in (("-i", "--infmt"),):\n        parser.add_argument(*flags_, help="Select the input format, overrides automatic detection.")\n')
+M("C18", "cli-set-defaults-after-table", "iodata/__main__.py", r"    return parser\.parse_args\(\)", "    parser.set_defaults(allow_changes=True)\n    return parser.parse_args()", "C18-R8")
+M("C17", "decorator-swaps-lists", "iodata/docstrings.py", r"        func\.guaranteed = guaranteed\n        func\.ifpresent = ifpresent", "        func.guaranteed = ifpresent\n        func.ifpresent = guaranteed", "C17-R7")
+T("C17", "factory-returns-through-local", "iodata/docstrings.py", r"    return _document_load\(LOAD_MANY_DOC_TEMPLATE, fmt, guaranteed, ifpresent, kwdocs, notes\)", "    deco_ = _document_load(LOAD_MANY_DOC_TEMPLATE, fmt, guaranteed, ifpresent=ifpresent, kwdocs=kwdocs, notes=notes)\n    return deco_")
+M("C08", "dump-many-checks-dump-one-list-through-local", "iodata/api.py", r"        _check_required\(filename, first, format_module\.dump_many\)", "        op_ = format_module.dump_one\n        _check_required(filename, first, op_)", "C08-R8")
+T("C08", "dump-many-checks-through-local", "iodata/api.py", r"        _check_required\(filename, first, format_module\.dump_many\)", "        op_ = format_module.dump_many\n        _check_required(filename, first, op_)")
 # ----------------------------------------------------------------------------- C14
 M("C14", "segmented-reversed", "iodata/convert.py", r"    for shell in obasis\.shells:\n        if \(shell\.ncon == 1\)", "    for shell in reversed(obasis.shells):\n        if (shell.ncon == 1)", "C14-R1")
 M("C14", "segmented-wrong-exponents", "iodata/convert.py", r"Shell\(shell\.icenter, \[angmom\], \[kind\], shell\.exponents, coeffs\.reshape\(-1, 1\)\)", "Shell(shell.icenter, [angmom], [kind], shell.exponents[::-1], coeffs.reshape(-1, 1))", "C14-R1")
